@@ -42,7 +42,7 @@ type verifCfg struct {
 	workDir     bool  // work-dir differs from output-dir
 	skipEmpty   bool  // --skip-empty-files
 	rotateSize  int64 // --rotate-size
-	rotateEvery bool  // --rotate-interval set, and the interval has always elapsed
+	rotateEvery bool  // --rotate-interval set (one minute; the model clock decides at every check whether it has elapsed)
 	maxInFlight int
 	starved     bool // consumer reports IsStarved() for the whole run
 	dateRoll    bool // the clock may cross a <DATETIME> boundary during the run
@@ -73,6 +73,8 @@ type verifHandle struct {
 	app    bool
 	pos    int
 	closed bool
+	broken bool // every write and fsync through this handle fails from now on
+	void   bool // writes "succeed" but the data goes nowhere; fsync fails
 }
 
 type verifGz struct {
@@ -175,6 +177,12 @@ func verifFileWrite(f *os.File, b []byte) (int, error) {
 	}
 	n := len(b)
 	var err error
+	if h.broken {
+		return 0, &os.PathError{Op: "write", Path: h.path, Err: verifErrIO}
+	}
+	if h.void {
+		return n, nil
+	}
 	if d.fault() {
 		// a failing write may have written part of the data
 		if n > 0 {
@@ -211,7 +219,7 @@ func verifFileSync(f *os.File) error {
 	if h == nil || h.closed {
 		return verifErrClosed
 	}
-	if d.fault() {
+	if h.broken || h.void || d.fault() {
 		return &os.PathError{Op: "sync", Path: h.path, Err: verifErrIO}
 	}
 	h.ino.durable = len(h.ino.data)
@@ -435,9 +443,14 @@ func verifGunzipReal(raw []byte) []byte {
 func verifConsumerStop(c *nsq.Consumer) {
 	r := verifCur
 	r.stopRequested++
-	if r.stopClosesAtOnce && !r.stopClosed {
-		r.stopClosed = true
-		close(c.StopChan)
+	if r.stopClosesAtOnce {
+		// an unconnected consumer stops at once; the closed termChan keeps the router's SIGTERM
+		// branch enabled until it happens to pick StopChan - explore up to two more rounds
+		r.stopCalls[c]++
+		verifrt.Assume(r.stopCalls[c] <= 3)
+		if r.stopCalls[c] == 1 {
+			close(c.StopChan)
+		}
 	}
 }
 func verifConsumerStarved(c *nsq.Consumer) bool { return verifCur.cfg.starved }
@@ -457,10 +470,6 @@ func verifTimeFormat(t time.Time, layout string) string {
 	}
 	return "01"
 }
-
-// time.Since is only consulted for --rotate-interval; the modelled regime is "the interval has
-// elapsed" (natively the model clock lies years in the past, so the real time.Since agrees).
-func verifTimeSince(t time.Time) time.Duration { return 24 * time.Hour }
 
 func verifInstallStubs() {
 	verifrt.Stub("os.OpenFile", verifOpenFile)
@@ -488,7 +497,6 @@ func verifInstallStubs() {
 	verifrt.Stub("time.NewTicker", verifNewTicker)
 	verifrt.Stub("(*time.Ticker).Stop", verifTickerStop)
 	verifrt.Stub("(time.Time).Format", verifTimeFormat)
-	verifrt.Stub("time.Since", verifTimeSince)
 }
 
 // ---------------------------------------------------------------- the run
@@ -514,12 +522,18 @@ type verifRun struct {
 	stopRequested    int
 	stopClosesAtOnce bool
 	stopClosed       bool
+	stopCalls        map[*nsq.Consumer]int
+	loggers          []*FileLogger
 	routerExited     bool
 	exitedProcess    bool
 	syncs, gzCloses  int
 	links, mkdirs    int
 	crashChecks      int
 	intrusions       int
+	breakBefore      int // event index before which the open file breaks (-1: never)
+	broke            bool
+	breakVoid        bool
+	carried          int
 
 	// native replay
 	synced   map[uint64]int // inode -> length known to be on disk
@@ -533,7 +547,7 @@ func verifNopLog(lvl lg.LogLevel, f string, args ...interface{}) {}
 // verifNewRun builds the options, the environment and a FileLogger exactly as NewFileLogger
 // does, minus the network (the consumer is never connected).
 func verifNewRun(cfg verifCfg) *verifRun {
-	r := &verifRun{cfg: cfg, tickC: make(chan time.Time), tickStep: 700 * time.Millisecond}
+	r := &verifRun{cfg: cfg, tickC: make(chan time.Time), tickStep: 700 * time.Millisecond, stopCalls: map[*nsq.Consumer]int{}, breakBefore: -1}
 	verifCur = r
 	if verifrt.Symbolic() {
 		verifInstallStubs()
@@ -580,7 +594,7 @@ func verifNewRun(cfg verifCfg) *verifRun {
 	if cfg.rotateEvery {
 		o.RotateInterval = time.Minute
 	}
-	o.SyncInterval = r.tickStep
+	o.SyncInterval = time.Hour // (plan() shortens it natively when the event sequence contains sync ticks)
 	r.opts = o
 	return r
 }
@@ -651,6 +665,38 @@ func (r *verifRun) preExisting(path string, content []byte) {
 	fh.Write(content)
 	fh.Sync()
 	fh.Close()
+}
+
+// breakOpenFile: from now on the logger's open file is unusable (a dying disk, a revoked
+// mount). void=false: every write and fsync fails. void=true: writes report success but the
+// data goes nowhere, and fsync fails - the only error the logger ever gets is the one from
+// fsync. Natively the descriptor is re-pointed at /dev/null opened read-only (EBADF on write,
+// EINVAL on fsync) resp. write-only (writes swallowed, EINVAL on fsync).
+func (r *verifRun) breakOpenFile(void bool) bool {
+	f := r.f
+	if f.out == nil {
+		return false
+	}
+	if verifrt.Symbolic() {
+		h := r.disk.fds[f.out]
+		if h == nil || h.closed {
+			return false
+		}
+		h.broken = !void
+		h.void = void
+		r.disk.faulted = true
+		return true
+	}
+	mode := syscall.O_RDONLY
+	if void {
+		mode = syscall.O_WRONLY
+	}
+	null, err := syscall.Open("/dev/null", mode, 0)
+	if err != nil {
+		return false
+	}
+	defer syscall.Close(null)
+	return syscall.Dup3(null, int(f.out.Fd()), 0) == nil
 }
 
 func (r *verifRun) exists(path string) bool {
@@ -904,6 +950,15 @@ func (d *verifDelegate) OnFinish(m *nsq.Message) {
 	verifrt.Assert(r.recordIn(files, r.recs[idx], true), "fin-only-after-fsync")
 	r.fin[idx] = true
 	r.nFin++
+	// (witness bookkeeping) the message was written into a file that has been rotated away since
+	if r.f != nil && r.f.out != nil {
+		cur := r.f.out.Name()
+		for _, fl := range files {
+			if fl.path == cur && !r.recordIn([]verifFile{fl}, r.recs[idx], false) {
+				r.carried++
+			}
+		}
+	}
 }
 func (d *verifDelegate) OnRequeue(m *nsq.Message, delay time.Duration, backoff bool) {}
 func (d *verifDelegate) OnTouch(m *nsq.Message)                                      {}
@@ -912,6 +967,7 @@ func (d *verifDelegate) OnTouch(m *nsq.Message)                                 
 
 func (r *verifRun) start(f *FileLogger) {
 	r.f = f
+	r.loggers = append(r.loggers, f)
 	verifrt.Go("router", func() {
 		f.router()
 		r.routerExited = true
@@ -933,7 +989,11 @@ func (r *verifRun) settle() {
 		if r.routerExited {
 			return
 		}
-		if len(r.f.logChan) == 0 && verifRouterParked() {
+		idle := true
+		for _, l := range r.loggers {
+			idle = idle && len(l.logChan) == 0
+		}
+		if idle && verifRouterParked() {
 			return
 		}
 		time.Sleep(200 * time.Microsecond)
@@ -941,20 +1001,29 @@ func (r *verifRun) settle() {
 	fmt.Println("VERIF-NOTE settle timed out")
 }
 
+// verifRouterParked (native replay): every router goroutine, and the topic discoverer's loop if
+// there is one, is blocked in its select.
 func verifRouterParked() bool {
 	buf := make([]byte, 1<<18)
 	buf = buf[:runtime.Stack(buf, true)]
+	n := 0
 	for _, g := range strings.Split(string(buf), "\n\n") {
-		if strings.Contains(g, ".(*FileLogger).router(") {
+		if strings.Contains(g, ".(*FileLogger).router(") || strings.Contains(g, ".(*TopicDiscoverer).run(") {
 			nl := strings.IndexByte(g, '\n')
-			return nl > 0 && strings.Contains(g[:nl], "[select")
+			if nl < 0 || !strings.Contains(g[:nl], "[select") {
+				return false
+			}
+			n++
 		}
 	}
-	return false
+	return n > 0
 }
 
-func (r *verifRun) newMessage(body []byte) *nsq.Message {
+// newMessage: the body is a distinct letter followed by the given (symbolic) bytes, so two
+// messages never have the same record and "still present" cannot be satisfied by another one.
+func (r *verifRun) newMessage(tail []byte) *nsq.Message {
 	i := len(r.msgs)
+	body := append([]byte{byte('a' + i)}, tail...)
 	m := &nsq.Message{Body: body, Delegate: &verifDelegate{r}, Attempts: 1}
 	m.ID[0] = byte('a' + i)
 	r.msgs = append(r.msgs, m)
@@ -962,6 +1031,21 @@ func (r *verifRun) newMessage(body []byte) *nsq.Message {
 	r.recs = append(r.recs, rec)
 	r.fin = append(r.fin, false)
 	return m
+}
+
+// handle: what go-nsq's handler loop does with a message (consumer.go handlerLoop): call the
+// handler; unless the handler disabled auto-response, FIN on nil / REQ on error right away.
+func (r *verifRun) handle(f *FileLogger, m *nsq.Message) {
+	err := f.HandleMessage(m)
+	if err != nil {
+		if !m.IsAutoResponseDisabled() {
+			m.Requeue(-1)
+		}
+		return
+	}
+	if !m.IsAutoResponseDisabled() {
+		m.Finish()
+	}
 }
 
 // the five things that can happen to a router
@@ -977,7 +1061,7 @@ const (
 func (r *verifRun) deliver(ev int, body []byte) {
 	switch ev {
 	case verifEvMsg:
-		r.f.HandleMessage(r.newMessage(body))
+		r.handle(r.f, r.newMessage(body))
 	case verifEvTick:
 		if verifrt.Symbolic() {
 			r.tickC <- time.Time{}
